@@ -14,3 +14,29 @@ Proof.
   split; [assumption|]. split; [assumption|].
   eapply g_deadlock_free; eassumption.
 Qed.
+
+From HV Require Import C07.Lin.
+
+(** the rule repository as it is in the working tree: every execution is
+    linearizable, every completed operation saw one committed state, and at
+    quiescence the repository is in the state the sequential history leads to *)
+Lemma repo_linearizable :
+  forall (val arg : Type) (wfun : op arg -> nat -> list val -> val) (wp : bool) (c0 : cfg val arg) ls c,
+    initial c0 -> exec wfun repo_skel wp c0 ls c ->
+    (exists σ pl tr ph,
+       lin wfun repo_skel wp c0 ls c σ pl tr /\ seq_hist wfun repo_skel (abs_of c0) (lins tr) σ /\
+       wb (fun _ => PIdle) tr ph /\ io_marks tr = io_labels ls) /\
+    (forall t o log, In (LEnd t o log) ls ->
+       exists H H1 H2 s s1 s2,
+         seq_hist wfun repo_skel (abs_of c0) H s /\ H = H1 ++ (t, o, log) :: H2 /\
+         seq_hist wfun repo_skel (abs_of c0) H1 s1 /\ seq_run wfun repo_skel o s1 = Some (s2, log)) /\
+    ((forall t, c_thr c t = None) ->
+       exists H σ, seq_hist wfun repo_skel (abs_of c0) H σ /\
+         (forall t o log, In (LEnd t o log) ls -> In (t, o, log) H) /\
+         (forall v, c_val c v = s_val σ v) /\ (forall p, c_heap c (c_ptr c p) = s_pub σ p)).
+Proof.
+  intros val arg wfun wp c0 ls c Hi He. pose proof repo_skel_wf as W. split; [|split].
+  - eapply g_linearizable; eassumption.
+  - intros t o log Hin. eapply g_committed; eassumption.
+  - intro Hq. eapply g_no_lost_update; eassumption.
+Qed.
